@@ -460,7 +460,17 @@ class Maker:
         kw = {}
         if 'value' in tv:
           kw['default'] = self(tv['value'])
-        return fdl.TaggedValue(tags=[stubmod.TAGS[t] for t in tv['tags']], **kw)
+        tags = [stubmod.TAGS[t] for t in tv['tags']]
+        via = tv.get('via')
+        if via == 'new' and len(tags) == 1:
+          return tags[0].new(**kw)                 # Tag.new(default=...)
+        if via == 'with_tags' and 'default' in kw:
+          # the buildable path of fiddle.experimental's with_tags (a single tag
+          # may be passed bare)
+          from fiddle._src.experimental import with_tags as _wt
+          return _wt.with_tags.as_buildable(kw['default'],
+                                            tags[0] if len(tags) == 1 else tags)
+        return fdl.TaggedValue(tags=tags, **kw)
       from fiddle._src import config as _cfg
       node = MNode('TaggedValueCls', _cfg.tagged_value_fn,
                    self.svs.setdefault('__tv__', SigView(_cfg.tagged_value_fn)))
